@@ -79,8 +79,8 @@ fn run_plan<F: SimFilesystem>(
             clock.clone(),
             rng.clone(),
             worker_dir.clone(),
-            cfg.prefix.clone(),
-            cfg.ext.clone(),
+            cfg.lib_prefix.clone(),
+            cfg.lib_ext.clone(),
             cfg.roll,
             cfg.reuse,
             cfg.max_files,
